@@ -5,7 +5,7 @@ from __future__ import annotations
 import ast
 
 from ..flow import FlowPolicy, exits, pairing, relevant_locals, run_flow
-from ..absint import Const, Sym
+from ..absint import NONE, Const, FuncV, ListV, ObjV, Out, Sym
 from ..repo import AnalysisError, body_walk, call_name, norm
 
 LEVEL_TEXT = (
@@ -165,9 +165,74 @@ def run(ctx):
     ok = any(isinstance(n, ast.JoinedStr) and "once(now" in norm(n) and "timeout" in norm(n) for n in body_walk(f5))
     ctx.check(ok, "R15.3", "decorator.py::WaitUntilDecoratorManager.__init__", "timeout implemented as once(now + timeout)",
               msg="the timeout decorator is no longer built from once(now + <timeout>s)", key="timeout decorator spec", node=f5, rel="decorator.py")
+    ctx.rule("R15.5", "a manager that is stopped while its start loop is still running (the first trigger fired at once) starts no further trigger", floor=2)
+    start_typestate(ctx, program, "R15.5")
+
+    ctx.rule("R15.6", "legacy wait_until: a notification received during a pending state_hold is never taken for the hold's expiry", floor=3)
+    from .c05 import legacy_hold_rules
+    legacy_hold_rules(ctx, program, "R15.6", uids=(LEGACY,))
+
     return (
         "Static, source-only: TrigTime.wait_until and DecoratorRegistry.wait_until are abstractly interpreted with every call a possible "
         "Exception exit and every await a possible CancelledError exit; on each exit the ordered acquire/release events are paired per kind "
         "(state/event/mqtt/webhook subscription; decorator manager).  The summary 'dm.wait_until() returns only after stop()' is itself checked on "
         "WaitUntilDecoratorManager.dispatch/handle_exception.  Not decided: which trigger fires first, timing, values returned."
     )
+
+
+class _StartPolicy(FlowPolicy):
+    live_lists = True  # `for d in self._decorators` iterates the live list object, as Python's list iterator does
+
+    def __init__(self, program, stop_fn, **kw):
+        super().__init__(program, **kw)
+        self.stop_fn = stop_fn
+
+    def call(self, interp, node, fname, fval, args, kwargs, cfg, out):
+        if fname == "decorator.start":
+            dec = cfg.env.get("decorator")
+            c = cfg.emit(("call", "start", dec))
+            res = [(c, NONE)]
+            if not any(e[0] == "reentrant-stop" for e in c.trace):
+                # the trigger just started fires at once (state_check_now / eager task start) and its dispatch stops the manager
+                c2 = c.emit(("reentrant-stop",))
+                sub = Out()
+                r = interp.inline(node, FuncV(self.stop_fn, recv=cfg.env.get("self"), name="DecoratorManager.stop"), [], {}, c2, sub)
+                res += [(cc, NONE) for cc, _ in r]
+            return res
+        if fname == "decorator.stop":
+            return [(cfg.emit(("call", "stop", cfg.env.get("decorator"))), NONE)]
+        return super().call(interp, node, fname, fval, args, kwargs, cfg, out)
+
+
+def start_typestate(ctx, program, rid):
+    """DecoratorManager.start interpreted with a re-entrant stop() possible inside every decorator.start()."""
+    uid = "decorator_abc.py::DecoratorManager.start"
+    stop_fn = program.func("decorator_abc.py::DecoratorManager.stop")
+    for n in (2, 3):
+        pol = _StartPolicy(program, stop_fn, may_raise_all=False, cancel=False,
+                           inline={"DecoratorManager.update_status", "DecoratorManager._stop_decorator", "self.update_status", "self._stop_decorator", "self.get_decorators", "DecoratorManager.get_decorators"})
+        decs = [ObjV(f"d{i}", "Decorator") for i in range(n)]
+        heap = {"self._decorators": ListV(tuple(decs), "list"), "self.status": Sym(("clsattr", "DecoratorManagerStatus", "VALIDATED")), "self.name": Const("f"),
+                "self.startup_time": NONE}
+        out = run_flow(program, uid, pol, args={"self": ObjV("self", "DecoratorManager")}, heap=heap)
+        ex = exits(out)
+        bad = None
+        n_re = 0
+        full = False
+        for kind, c, desc in ex:
+            evs = [e for e in c.trace if e[0] in ("call", "reentrant-stop")]
+            if ("reentrant-stop",) in evs:
+                n_re += 1
+                i = evs.index(("reentrant-stop",))
+                late = [repr(e[2]) for e in evs[i + 1:] if e[0] == "call" and e[1] == "start"]
+                started = [e[2] for e in evs[:i] if e[0] == "call" and e[1] == "start"]
+                stopped = [e[2] for e in evs[i + 1:] if e[0] == "call" and e[1] == "stop"]
+                if late:
+                    bad = f"after the manager was stopped during the start of {started[-1]!r} the loop still starts {late}: nothing ever stops them (their listeners outlive the wait)"
+                elif any(d not in stopped for d in started):
+                    bad = f"the re-entrant stop does not stop {[repr(d) for d in started if d not in stopped]}"
+            elif kind == "return" and len([e for e in evs if e[1] == "start"]) == n:
+                full = True
+        ctx.check(bool(ex) and n_re >= n and full and bad is None, rid, uid, f"{n} triggers, stop possible inside each start",
+                  msg=f"DecoratorManager.start with {n} triggers: {bad or f'paths explored: {len(ex)}, with re-entrant stop: {n_re}, undisturbed start seen: {full}'}",
+                  key=f"start typestate {n}", node=program.func(uid), rel="decorator_abc.py")
